@@ -12,7 +12,7 @@ import re
 
 import vlib, ucheck
 from vlib import VERIF
-from C28 import load_known, report, hx
+from C28 import load_known, report, hx, conformance
 
 SPEC = os.path.join(VERIF, 'spec', 'syntax')
 SCHEMES = ['http', 'https', 'ftp', 'HTTP', 'hTTps', 'ws', 'wss', 'foo', 'coap', 'whois', 'h+t.p-1']
@@ -119,20 +119,29 @@ def port_text(m, u):
     return hp.split(b':', 1)[1] if hp.count(b':') == 1 else None
 
 
+PATHCHARS = set(b"/:@-._~%!$&'()*+,;=" + bytes(range(48, 58)) + bytes(range(65, 91)) + bytes(range(97, 123)))
+
+
+def pct(path):
+    return b''.join(bytes([b]) if b in PATHCHARS else b'%%%02X' % b for b in path)
+
+
 def classify(c, i_accepts):
     u = bytes(c['u'])
     pt = port_text(c['m'], u)
     feat = 'other'
-    if c['ok'] and pt is not None and not (re.fullmatch(rb'\d+', pt) and 1 <= int(pt) <= 65535):
+    if c['ok'] and pt is not None and pt != b'' and not (re.fullmatch(rb'\d+', pt) and 1 <= int(pt) <= 65535):
         feat = 'bad-port-accepted'
-        if re.fullmatch(rb'[+-]?\d+.*', pt, re.S):
+        if c['m'] != 'CONNECT' and re.fullmatch(rb'[+-]?\d+.*', pt, re.S):
             feat = 'port-read-by-atoi'
-    elif c['ok'] and c['ok2'] and bytes(c['path']) != bytes(c['path2']):
-        feat = 'path-changes-on-reparse'
-    elif c['ok'] and not c['ok2']:
-        feat = 'canonical-form-rejected'
     elif c['ok'] and not bytes(c['host']):
         feat = 'empty-host-accepted'
+    elif c['ok'] and c['ok2'] and bytes(c['path']) != bytes(c['path2']):
+        feat = 'path-changes-on-reparse'
+        if bytes(c['path2']) == pct(bytes(c['path'])) and (c['scheme'], c['host'], c['port']) == (c['scheme2'], c['host2'], c['port2']):
+            feat = 'canonical-form-percent-encodes-path-delimiters'
+    elif c['ok'] and not c['ok2']:
+        feat = 'canonical-form-rejected'
     return {'feature': feat, 'method': 'CONNECT' if c['m'] == 'CONNECT' else 'other', 'i_layer': 'accepts' if i_accepts else 'rejects'}
 
 
@@ -160,7 +169,7 @@ def run(ctx):
             ctx.violation('memory error (ASan) while parsing %s: %s' % (bad, r.stderr[-600:]), {'class': {'feature': 'asan'}, 'line': bad})
             return
         raise vlib.MachineryError('driver answered %d of %d (rc=%s) %s' % (len(outs), len(lines), r.returncode, r.stderr[-800:]))
-    prej, irej = ucheck.conformance(ctx, os.path.join(SPEC, 'Conf_UriModel.tla'), os.path.join(SPEC, 'Conf_UriModel.cfg'), outs, 'uri')
+    prej, irej = conformance(ctx, os.path.join(SPEC, 'Conf_UriModel.tla'), os.path.join(SPEC, 'Conf_UriModel.cfg'), outs, 'uri')
     ctx.log('TLC evaluated %d cases: P-rejected %d, I-rejected %d' % (len(outs), len(prej), len(irej)))
     known = load_known('C30')
     iset, hist = set(irej), {}
